@@ -197,7 +197,7 @@ pub fn record_wlimit(seed: u64, thorough: bool, path: &str) -> Value {
         while limit <= final_size + 8 {
             let fname = scratch("verif-wlimit");
             set_fsize_limit(Some(limit as u64));
-            let mut ctor = "ok"; let mut pushed_ok = 0usize; let mut push_panicked = false; let mut close = "not reached"; let mut mirror_bytes: Vec<u8> = Vec::new();
+            let mut ctor = "ok"; let mut pushed_ok = 0usize; let mut push_panicked = false; let mut close = "not reached"; let mut close_again = "not reached"; let mut mirror_bytes: Vec<u8> = Vec::new();
             match guarded(|| open(&cfg, &fname)) {
                 Ok(Ok((mut w, mut m))) => {
                     for c in calls.iter() {
@@ -205,8 +205,14 @@ pub fn record_wlimit(seed: u64, thorough: bool, path: &str) -> Value {
                         if r == json!("panic") { push_panicked = true; break; }
                         pushed_ok += 1;
                     }
+                    let mut do_close = |w: &mut AnyWriter, m: &mut Mirror| match w.call(m, &json!({"op": "close"})).as_str() { Some("ok") => "ok", Some("err") => "err", _ => "panic" };
                     if !push_panicked {
-                        close = match w.call(&mut m, &json!({"op": "close"})).as_str() { Some("ok") => "ok", Some("err") => "err", _ => "panic" };
+                        close = do_close(&mut w, &mut m);
+                        // a failed close leaves the writer open: closing again (the limit still holds) must not turn into a success
+                        if close == "err" { close_again = do_close(&mut w, &mut m); }
+                    } else {
+                        // the caller caught the documented panic and closes the writer
+                        close_again = do_close(&mut w, &mut m);
                     }
                     mirror_bytes = m.bytes();
                     let _ = guarded(|| drop(w));
@@ -218,7 +224,7 @@ pub fn record_wlimit(seed: u64, thorough: bool, path: &str) -> Value {
             let file = std::fs::read(&fname).unwrap_or_default();
             let _ = std::fs::remove_file(&fname);
             out.push(json!({"e": "wl", "cfg": cfg, "limit": limit, "final_size": final_size, "ctor": ctor, "pushes": calls.len(), "pushed_ok": pushed_ok,
-                            "push_panicked": push_panicked, "close": close, "file_complete": !mirror_bytes.is_empty() && file == mirror_bytes && pushed_ok == calls.len()}));
+                            "push_panicked": push_panicked, "close": close, "close_again": close_again, "file_complete": !mirror_bytes.is_empty() && file == mirror_bytes && pushed_ok == calls.len()}));
             runs += 1;
             limit += 8;
         }
